@@ -17,6 +17,7 @@ REPLAYS = os.path.join(ROOT, "replays")
 def _config_child(module_name, cfg, queries, Ks, timeout_s, seed, conn, extra_module=None, faults_may_block=False):
     res = {"cfg": cfg, "ok": False}
     t0 = time.time()
+    timeout_s = cfg.get("timeout_s", timeout_s)
     try:
         os.environ["VF_BMC_W"] = str(cfg.get("W", 4))
         import resource
@@ -38,6 +39,7 @@ def _config_child(module_name, cfg, queries, Ks, timeout_s, seed, conn, extra_mo
         info = built["info"]
         w = World(default_cap=info["default_cap"], dict_keys=info["dict_keys"])
         w.list_caps.update(info["list_caps"])
+        w.publication_functions = set(info.get("publication_functions", ()))
         S = driver.build(w, built["scenario"], built["args"])
         res["build_s"] = round(time.time() - t0, 2)
         res["stats"] = S.stats()
@@ -50,12 +52,17 @@ def _config_child(module_name, cfg, queries, Ks, timeout_s, seed, conn, extra_mo
         pmax = [c == hi for (c, lo, hi) in w.params.values()]
         if pmax:
             wit_extra = z3.And(pmax)
-        # 1. find K with unwind unsat
+        # 1. find K with unwind unsat (configurations with "fixed_K" decide the claim queries first and try the unwinding
+        #    query once afterwards: used where refuting the unwinding query is expensive)
         K_ok = None
         tried = []
-        for K in Ks:
+        fixed_K = cfg.get("fixed_K")
+        for K in (() if fixed_K else Ks):
             r = driver.check(S, K, which=("unwind",), timeout_s=timeout_s, seed=seed, context_bound=cfg.get("context_bound"))["unwind"]
             tried.append({"K": K, "result": r["result"], "time_s": r["time_s"], "flags": r.get("flags")})
+            if r["result"] == "sat" and "prefix_schedule" not in res and not r.get("flags"):
+                # an arbitrary K-step prefix of some execution: used for model-vs-implementation conformance (replayed on real code)
+                res["prefix_schedule"] = {"schedule": r.get("schedule"), "params": r.get("params"), "faults": r.get("faults"), "K": K}
             if r["result"] == "unsat":
                 K_ok = K
                 break
@@ -65,7 +72,7 @@ def _config_child(module_name, cfg, queries, Ks, timeout_s, seed, conn, extra_mo
                 res["bound_exceeded_schedule"] = r.get("schedule")
                 break
         res["unwind"] = tried
-        K = K_ok if K_ok is not None else Ks[-1]
+        K = fixed_K or (K_ok if K_ok is not None else Ks[-1])
         res["K"] = K
         res["unwind_ok"] = K_ok is not None
         which = [q for q in queries if q != "unwind"]
@@ -79,6 +86,10 @@ def _config_child(module_name, cfg, queries, Ks, timeout_s, seed, conn, extra_mo
         out = driver.check(S, K, which=which, timeout_s=timeout_s, seed=seed, witness_extra=wit_extra, assert_extra=extra, context_bound=cfg.get("context_bound"))
         for q, r in out.items():
             res["queries"][q] = r
+        if fixed_K:
+            r = driver.check(S, K, which=("unwind",), timeout_s=timeout_s, seed=seed, context_bound=cfg.get("context_bound"))["unwind"]
+            res["unwind"] = [{"K": K, "result": r["result"], "time_s": r["time_s"], "flags": r.get("flags")}]
+            res["unwind_ok"] = r["result"] == "unsat"
         if cfg.get("cross_check_por"):
             out2 = driver.check(S, K, which=[q for q in which if q != "witness"], timeout_s=timeout_s, seed=seed, por=False)
             res["no_por"] = {q: {"result": r["result"], "time_s": r["time_s"]} for q, r in out2.items()}
@@ -225,6 +236,17 @@ def run_property(prop, tier, seed, module_name, cfgs, claim_queries, Ks, timeout
             samples.append({"configuration": name, "params": wit.get("params"),
                             "witness_schedule": ["%s:%s" % (s["thread"], s["op"]) for s in wit.get("schedule", [])][:120]})
         witness_ok = wit.get("result") == "sat"
+        if r.get("prefix_schedule"):
+            ps = r["prefix_schedule"]
+            pspec = {"engine": "bmc", "module": module_name, "cfg": cfg, "query": "prefix", "params": ps.get("params"),
+                     "faults": ps.get("faults"), "schedule": ps.get("schedule")}
+            pr = replay_in_subprocess(pspec)
+            validated += 1
+            row["prefix_replay_on_real_code"] = {"steps": len([x for x in ps.get("schedule") or [] if x.get("visible", True)]),
+                                                 "divergence": pr.get("divergence"), "ops_executed": pr.get("ops_executed")}
+            if pr.get("divergence") or pr.get("crashed"):
+                harness_errors.append("configuration %s: a %d-step schedule prefix of the model does not run on the real code "
+                                      "(model and implementation disagree): %s" % (name, ps.get("K"), pr.get("divergence") or pr.get("observed")))
         if witness_ok:
             # translator validation: the witness schedule found in the MODEL is executed on the REAL classes
             wspec = {"engine": "bmc", "module": module_name, "cfg": cfg, "query": "witness", "params": wit.get("params"),
@@ -260,7 +282,7 @@ def run_property(prop, tier, seed, module_name, cfgs, claim_queries, Ks, timeout
                                                 "(longer executions exist or a capacity was exceeded)" % r["K"]})
                     print("INCONCLUSIVE property=%s configuration=%s query=%s: unwinding bound not established at K=%d" % (prop, name, q, r["K"]), flush=True)
             elif qr["result"] == "sat":
-                spec = {"engine": "bmc", "module": module_name, "cfg": cfg, "query": q, "params": qr.get("params"),
+                spec = {"engine": "bmc", "module": module_name, "cfg": cfg, "query": q, "params": qr.get("params"), "extra_module": extra_module,
                         "flags": qr.get("flags"), "faults": qr.get("faults"), "schedule": qr.get("schedule")}
                 rr = replay_in_subprocess(spec)
                 validated += 1
